@@ -171,3 +171,37 @@ def gen(rng, n, tier="quick"):
                        I(v.toordinal()) if st == "ok" else E(v), {"ymd": [y, m, dd]})
 
 GROUPS = {"julian": gen}
+
+def _roundtrip_chunk(rng_):
+    """julianday → julianday_to_datetime for 00:00:00 of every date in the chunk"""
+    import struct as _st
+    lo, hi = rng_
+    fromord = datetime.date.fromordinal
+    out = []
+    for o in range(lo, hi):
+        d = fromord(o)
+        try:
+            jd = J.julianday(datetime.datetime(d.year, d.month, d.day))
+            v = J.julianday_to_datetime(jd)
+            out.append(("F%016x" % _st.unpack("<Q", _st.pack("<d", jd))[0], "I%d" % wall_us(v)))
+        except Exception as exc:  # noqa: BLE001
+            out.append(("F%016x" % _st.unpack("<Q", _st.pack("<d", float(o) + 1721424.5))[0], E(exc)))
+    return out
+
+
+def roundtrip_all_dates_bulk():
+    """every date 1582-10-15 … 9999-12-31 at 00:00:00 (the property quantifies over all of them):
+    julianday_to_datetime(julianday(d)) on all cores, against the model; returns
+    (function, requests, expected, describe)"""
+    import multiprocessing
+    lo0 = datetime.date(1582, 10, 15).toordinal()
+    N = 3652059
+    step = 60000
+    chunks = [(lo, min(lo + step, N + 1)) for lo in range(lo0, N + 1, step)]
+    with multiprocessing.Pool(min(16, multiprocessing.cpu_count())) as pool:
+        parts = pool.map(_roundtrip_chunk, chunks)
+    flat = [x for part in parts for x in part]
+    requests = ["julianday_to_datetime %s" % jd for jd, _ in flat]
+    expected = [e for _, e in flat]
+    return "julianday_to_datetime", requests, expected, (
+        lambda i: {"date": str(datetime.date.fromordinal(lo0 + i)), "time": "00:00:00"})
